@@ -6,16 +6,23 @@ import concurrent.futures as cf
 from lib import common as C
 from checks import hsim
 
-MODEL = {"mutex": "rwspec", "rw": "rwspec", "qrw": "rwspec", "sem": "semlog", "semd": "semlog", "cond": "ringlog"}
+MODEL = {"mutex": "rwspec", "rw": "rwspec", "qrw": "rwspec", "sem": "semlog", "semd": "semlog", "semooo": "semlog", "cond": "ringlog"}
 
 
 def gen(r, what, big):
     nv = r.choice([2, 3, 4])
+    if what in ("mutex", "rw", "qrw") and r.random() < 0.5:
+        # one hand-over per round, aimed at the window between a locker's last failed attempt and its going to sleep
+        return ["handoff %s %d %d" % (r.choice(["mutex", "mutex0"]) if what == "mutex" else what, r.choice([20000, 40000] if not big else [100000, 200000]), r.choice([0, 1, 1]))]
     if what in ("mutex", "rw", "qrw"):
         return ["lock %s %d %d %d %s %s %d" % (what, nv, r.choice([1, 2, 3]), r.choice([100, 300] if not big else [300, 1000]), r.choice("nyys"),
                                                 r.choice(["inf", "inf", "100", "1000"]), r.choice([10, 30, 100]))]
+    if what == "sem" and r.random() < 0.35:
+        return ["semooo %d %d" % (r.choice([3, 24]), r.choice([20000, 50000] if not big else [100000, 300000]))]
     if what == "sem":
-        return ["sem %d %d %d %d %d %d" % (nv, r.choice([1, 2, 3]), r.choice([0, 1, 2]), r.choice([1, 2]), r.choice([200, 600] if not big else [600, 3000]), r.choice([0, 0, 1]))]
+        tmo = r.choice([0, 1])
+        return ["sem %d %d %d %d %d %d %d" % (nv, r.choice([1, 2, 3]), r.choice([0, 1, 2]), r.choice([1, 2]),
+                                             r.choice([200, 600] if not big else [600, 3000]) * (4 if tmo else 1), r.choice([0, 1, 1] if tmo else [0, 0, 1]), tmo)]
     if what == "semd":
         return ["semd %d %d %d %d" % (nv, r.choice([1, 2, 4]), r.choice([300, 1000] if not big else [1000, 5000]), r.choice([0, 1]))]
     return ["cond %d %d %d %d %d" % (nv, r.choice([1, 2, 3]), r.choice([1, 2, 3]), r.choice([500, 2000] if not big else [2000, 10000]), r.choice([1, 1, 2, 8]))]
@@ -23,7 +30,9 @@ def gen(r, what, big):
 
 def kind_of(p):
     w = p[0].split()
-    return w[1] if w[0] == "lock" else w[0]
+    if w[0] in ("lock", "handoff"):
+        return "mutex" if w[1].startswith("mutex") else w[1]
+    return w[0]
 
 
 def run(rep, prop, kinds, tier, seed, replay_prog=None):
@@ -56,7 +65,7 @@ def run(rep, prop, kinds, tier, seed, replay_prog=None):
         for p, res in zip(ps, results):
             nev += len(res.trace)
             w = p[0].split()
-            rep.distinct(("mv", kind_of(p), "nv%s" % (w[2] if w[0] == "lock" else w[1]), res.result))
+            rep.distinct(("mv", w[0], kind_of(p), "nv%s" % (w[2] if w[0] == "lock" else w[1]) if w[0] != "handoff" else "intr%s" % w[3], res.result))
             viol = []
             if res.result.startswith("result hung"):
                 viol.append("nobody made progress for 3 s although threads were still inside their operations (%s)" % next((l for l in res.trace if l.startswith("stalled")), ""))
@@ -91,8 +100,11 @@ def run(rep, prop, kinds, tier, seed, replay_prog=None):
     rep.cov["mv_events"] = nev
     rep.cov["mv_runs_accepted"] = okc
     rep.cov["mv_rule"] = ("the real primitives on 2..4 vCPUs (OS threads), 1..3 photon threads each, real races on real time: lock/unlock cycles with yields or "
-                          "sleeps inside the critical section, timed and untimed, an occupancy counter and an unprotected counter inside; semaphores signalled "
-                          "from photon threads and plain OS threads, waiters of 1..3 tokens, in-order and out-of-order resume; semaphores destroyed and "
+                          "sleeps inside the critical section, timed and untimed, an occupancy counter and an unprotected counter inside; single hand-overs per round "
+                          "between two vCPUs with the unlock placed 0..3 us after the other side started to lock, optionally with a thread_interrupt of the locker "
+                          "from a plain OS thread at the same moment; semaphores signalled "
+                          "from photon threads and plain OS threads, waiters of 1..3 tokens, in-order and out-of-order resume, optionally with short timeouts and "
+                          "interrupts of the waiters; semaphores destroyed and "
                           "overwritten as soon as wait() returns; a bounded buffer with a mutex and two condition variables; stamped logs validated by the "
                           "Lean acceptors rwspec / semlog / ringlog; a run without progress for 3 s is a stuck waiter")
     for kid, (k, p, v) in seen.items():
